@@ -556,6 +556,9 @@ class Interp:
                 if isinstance(sub, ast.Call) and isinstance(sub.func, ast.Attribute) \
                         and sub.func.attr in MUTATING_METHODS:
                     root(sub.func.value)
+                elif isinstance(sub, ast.Call) and isinstance(sub.func, ast.Name) and sub.func.id == 'next' \
+                        and sub.args and isinstance(sub.args[0], ast.Name):
+                    names.add(sub.args[0].id)
                 elif isinstance(sub, (ast.Assign, ast.AugAssign, ast.Delete)):
                     tgts = sub.targets if hasattr(sub, 'targets') else [sub.target]
                     for t in tgts:
@@ -603,6 +606,14 @@ class Interp:
                 continue
             if isinstance(cur, VCell) and nm in mut_names and nm not in assigned:
                 self.havoc_cell(cur, 'loop!' + nm)
+                continue
+            if isinstance(cur, VIter):
+                if isinstance(cur.seq, VTuple):
+                    raise Unsupported('havoc of an iterator over a concrete tuple', st)
+                npos = ctx.fresh_const('loop!%s.pos' % nm, z3.IntSort())
+                ctx.assume(z3.And(npos >= 0, npos <= z3.Length(cur.seq.t)))
+                ni = VIter(cur.seq, npos)
+                fr.locals[nm] = ni
                 continue
             ty = ty_of_value(cur)
             if isinstance(cur, VCell):
